@@ -77,7 +77,7 @@ def body(c):
     for mode in ("plain", "at", "managed"):
         L.mc(c, "WriteBatch", "%s-%dops" % (mode, n_mc if mode != "plain" else 5),
              consts(mode, n_mc if mode != "plain" else 5), INV, timeout=900)
-    # the write order of the pinned tree is expressible and violates LaterWins in the model
+    # the write order the tree had before fix a5388b6 is expressible and violates LaterWins in the model
     cx = L.expect_counterexample(c, "WriteBatch", "managed-asis", consts("managed", 3, dupfirst=False), "LaterWins")
     c.cov["asis_write_order_counterexample_found"] = bool(cx.violation)
     if not cx.violation:
@@ -102,7 +102,7 @@ def body(c):
                 n = len(cs["ops"])
                 sets = list(all_split_sets(n))
                 if q or n >= 5:
-                    chosen = [[]] + rnd.sample(sets[1:], min(len(sets) - 1, 1 if q else 3))
+                    chosen = [[]] + rnd.sample(sets[1:], min(len(sets) - 1, 1 if q else 2))
                 else:
                     chosen = sets
                 for s in chosen:
@@ -111,7 +111,7 @@ def body(c):
         L.replay(c, "cmd/sm1batch", run, managed + ["-inmem"], "batch-%s-pad-inmem" % mode, timeout=1500)
         total_eval += len(run)
         if not q:
-            sub = rnd.sample(run, min(len(run), 20000))
+            sub = rnd.sample(run, min(len(run), 8000))
             L.replay(c, "cmd/sm1batch", sub, managed, "batch-%s-pad-disk" % mode, timeout=1500)
             total_eval += len(sub)
         for cs in run:
@@ -122,7 +122,7 @@ def body(c):
         for cap in ([2] if q else [1, 2, 3]):
             mts = ((cap + 2) * 96 * 100) // 15 + 1
             pool = [cs for cs in base if not cs["splits"]] if mode == "plain" else base
-            pool = rnd.sample(pool, min(len(pool), 600 if q else 6000))
+            pool = rnd.sample(pool, min(len(pool), 600 if q else 3000))
             capr = []
             for cs in pool:
                 n = len(cs["ops"])
@@ -138,7 +138,7 @@ def body(c):
                     if cs["splits"] == [p for p in range(cap, n, cap)]:
                         bysplit[short(cs)] = dict(cs, via="cap" if cs["splits"] else "none")
                 capr = list(bysplit.values())
-                capr = rnd.sample(capr, min(len(capr), 600 if q else 6000))
+                capr = rnd.sample(capr, min(len(capr), 600 if q else 3000))
             L.replay(c, "cmd/sm1batch", capr, managed + ["-memtable", str(mts), "-vthreshold", "32", "-bigvalues", "-reopen", "60"],
                      "batch-%s-cap%d-disk" % (mode, cap), timeout=1500)
             total_eval += len(capr)
@@ -147,7 +147,7 @@ def body(c):
     c.cov["rule"] = ("a case = operation sequence (TLC-enumerated, all sequences up to length %d over 2 keys x versions of the "
                      "constructor x set/delete, first key fixed by symmetry) x a split set; non-trivial = at least 2 operations; "
                      "distinct = distinct (sequence, split set, split mechanism)" % (4 if q else 5))
-    c.cov["exhaustive"] = not q
+    c.cov["exhaustive"] = False   # sequences are enumerated by TLC, replays above the caps are seeded samples
     for mode in ("managed", "at", "plain"):
         for cs in cases[mode]:
             if len(cs["ops"]) >= 3 and (mode == "plain" or has_xver(cs)):
